@@ -159,6 +159,11 @@ func calculateNextQuota(
 	if next < 1 {
 		next = 1
 	}
+	// an instance may report a quota the server has no record of (its first report for this schema):
+	// whatever it says it holds, no quota above the global limit is answered
+	if total >= 1 && next > total {
+		next = total
+	}
 
 	next = math.Ceil(next)
 
